@@ -31,7 +31,7 @@ def step_vgraph(cmd):
 
 
 CODE_TAGS = {"CODE-TOKENS": ["C01", "C06"], "CODE-ERRORS": ["C02", "C06"], "CODE-TILING": ["C03", "C06"], "CODE-PARTIAL": ["C07", "C06"],
-             "CODE-BACKENDS": ["C06"], "CODE-READS": ["C20"], "CODE-PANIC": ["C03", "C05", "C06"]}
+             "CODE-BACKENDS": ["C06"], "CODE-BOUNDARY": ["C04"], "CODE-READS": ["C20"], "CODE-PANIC": ["C03", "C05", "C06"]}
 
 
 def step_code(pid, tier, seed):
@@ -332,7 +332,7 @@ prop("C04", level="model_checking", engine="vgraph+vrt",
      technique="product of each accepted str-mode pattern's reference automaton with a UTF-8 validity DFA (acceptance side), plus numeric boundary checks of every span observed on compiled lexers over bounded-exhaustive valid UTF-8 inputs",
      text="(a) no accepted str-mode pattern or subpattern has a reachable accepting configuration outside 'between characters' (all strings); (b) every span boundary observed through span()/slice()/remainder() on the compiled lexers is a char boundary, checked numerically before slicing, for all enumerated inputs with 1-4 byte characters.",
      note="Same trusted base as C01; std's is_char_boundary is the boundary oracle.", design_ref="5 C04",
-     steps=[step_selfcheck, step_layer1, step_layer2(["u-dev", "f-dev"], ["u-dev", "u-rel", "f-dev", "f-rel"])], assumptions=L2_ASSUME)
+     steps=[step_selfcheck, step_layer1, step_code, step_layer2(["u-dev", "f-dev"], ["u-dev", "u-rel", "f-dev", "f-rel"])], assumptions=L2_ASSUME + CODE_ASSUME)
 prop("C05", level="exploration", engine="vrt",
      technique="exhaustive enumeration of Source::read over every (len, offset, chunk size) incl. wrap-around offsets, and of lexing inputs of every length around the 8-byte batch in exactly sized heap allocations, under valgrind memcheck; default vs forbid_unsafe builds x dev/release compared through the common reference",
      text="Source::read returns Some(bytes) iff offset+N <= len in unbounded arithmetic for every enumerated case in all four builds; every compiled lexer run on exactly sized heap inputs is free of invalid reads under memcheck; unsafe and forbid_unsafe builds (dev and release) produce the reference's transcript with no panic.",
